@@ -84,8 +84,12 @@ class Report(object):
             if e.get('property') == self.prop and e.get('status') == 'open':
                 open_keys[(e['rule'], e['key'])] = e
         viol, knownhits, undec = [], [], []
+        dedupe = set()
         for i in self.instances:
             if i.verdict == 'violation':
+                if (i.rule, i.key) in dedupe:
+                    continue
+                dedupe.add((i.rule, i.key))
                 e = open_keys.get((i.rule, i.key))
                 if e is not None:
                     knownhits.append((i, e))
